@@ -281,9 +281,10 @@ func c14Scenario(h *H, root string, si int) {
 	h.Case("concurrent")
 	a12EmitState(h, dec, in, base, "r0")
 	// global trace: decode all packs first so closures can be expanded, then emit in order
-	a12DecodePacks(dec, sched.events)
+	final := DumpBackend(be)
+	a12DecodePacks(dec, sched.events, final)
 	for i, e := range sched.events {
-		a12EmitEvents(h, dec, in, sched.procs[i], []Event{e})
+		a12EmitEvents(h, dec, in, sched.procs[i], []Event{e}, final)
 	}
 	for w := 0; w < nw; w++ {
 		h.Rec("wres", fmt.Sprintf("w%d", w), Itoa(wres[w].Exit), HexS(firstLine(wres[w].Stderr)))
@@ -292,7 +293,7 @@ func c14Scenario(h *H, root string, si int) {
 	emitted := make([]int, len(sched.events)+1)
 	for i, e := range sched.events {
 		emitted[i+1] = emitted[i]
-		if !e.Err {
+		if a12Happened(e, final) {
 			emitted[i+1]++
 		}
 	}
